@@ -201,6 +201,9 @@ def run(tier):
         d = {im["trait"]: im["derived"] for im in F.impls if im.get("adt") == ty and im.get("trait") in ("std::cmp::PartialEq", "std::hash::Hash", "std::cmp::Eq")}
         rep.check(d.get("std::cmp::PartialEq") is True and d.get("std::hash::Hash") is True, "derived-eq-hash", short(ty),
                   "PartialEq and Hash are not both derived: equal nodes may hash differently", detail=d)
+    # the marked node types implement Eq and Hash by hand: both must consult the same thing (the `data` field, whose type derives both)
+    from . import C19
+    C19.span_blind(rep, F, "eq-hash-same-fields")
     return rep
 
 
